@@ -83,11 +83,34 @@ def body(chk, db, cfgname):
                     seq.append(pos2push[(b, i)])
         sig = tuple(pushes[j][0] for j in seq)
         classes.setdefault(sig, []).append((path, seq))
+    def path_env(path):
+        """values of locals assigned on this path (v = expr), resolved through earlier assignments on the same path"""
+        env, defnode = {}, {}
+        for b_ in path:
+            for e in f.cfg.blocks[b_].elems:
+                nid = e[2] if isinstance(e, tuple) else e
+                n_ = f.nodes[nid]
+                tgt = rhs = None
+                if n_["k"] == "bin" and n_["op"] == "=":
+                    tgt, rhs = n_["l"], n_["r"]
+                elif n_["k"] == "call" and n_.get("ck") == "op" and n_.get("op") == "=" and len(n_["args"]) == 2:
+                    tgt, rhs = n_["args"]
+                if tgt is None:
+                    continue
+                tn = f.nodes[tgt]
+                if tn["k"] == "ref" and tn["dk"] == "local" and not ctx.single_assignment(tn["d"]) and tn["d"] != shp["var"][1]:
+                    env[tn["d"]] = key_subst(deconv(ctx.key(rhs, inline=False)), lambda x: env.get(x[1]) if x[0] == "var" else None)
+                    defnode[tn["d"]] = nid
+        return env, defnode
+
     for sig, lst in sorted(classes.items()):
         path, seq = lst[0]
         site = SC + "compute:path[%s]" % ",".join(sig)
-        sbi = [pushes[j] for j in seq if pushes[j][0] == "sbi"]
-        sc = [pushes[j] for j in seq if pushes[j][0] == "sc"]
+        penv, pdef = path_env(path)
+        res = lambda k: key_subst(k, lambda x: penv.get(x[1]) if x[0] == "var" else None)
+        used_def = [pdef[pushes[j][1][1]] for j in seq if len(pushes[j]) > 1 and isinstance(pushes[j][1], tuple) and pushes[j][1][0] == "var" and pushes[j][1][1] in pdef]
+        sbi = [(pushes[j][0], res(pushes[j][1])) + tuple(pushes[j][2:]) for j in seq if pushes[j][0] == "sbi"]
+        sc = [(pushes[j][0], res(pushes[j][1])) + tuple(pushes[j][2:]) for j in seq if pushes[j][0] == "sc"]
         if len(sbi) != 1 or len(sc) != 1:
             r1.bad(site, f.loc(seq[0]) if seq else f.loc(L), "on a path through the loop body the state is appended %d time(s) to StateBlockIndex and %d time(s) to a block of StatesContainer (exactly once each is required): "
                    "a state belongs to no block or to two" % (len(sbi), len(sc)), cfgname)
@@ -110,9 +133,30 @@ def body(chk, db, cfgname):
                 detail = "new block number is not the running block counter"
             else:
                 incs = [m for m in ctx.mut.get(b[1], []) if f.cfg.pos1(m) and f.cfg.pos1(m)[0] in path]
-                if len(incs) != 1 or not all(f.cfg.dominates(f.cfg.pos1(j), f.cfg.pos1(incs[0])) for j in seq):
+                # order of events along this path
+                order_ids = []
+                for b_ in path:
+                    for e in f.cfg.blocks[b_].elems:
+                        order_ids.append(e[2] if isinstance(e, tuple) else e)
+                when = lambda nid: order_ids.index(nid) if nid in order_ids else None
+                inc_ok = len(incs) == 1 and when(incs[0]) is not None
+                if inc_ok:
+                    for j in seq:
+                        if len(pushes[j]) < 2:
+                            continue
+                        raw = pushes[j][1]
+                        if raw == b:
+                            # the counter itself is read at the push: it must not have advanced yet
+                            inc_ok = inc_ok and when(j) is not None and when(j) < when(incs[0])
+                        elif isinstance(raw, tuple) and raw[0] == "var" and raw[1] in pdef:
+                            # a copy taken earlier on this path: the copy must have been taken before the counter advanced
+                            inc_ok = inc_ok and when(pdef[raw[1]]) is not None and when(pdef[raw[1]]) < when(incs[0])
+                        else:
+                            inc_ok = False
+                    nb = [j for j in seq if pushes[j][0] == "newblock"]
+                if not inc_ok:
                     good = False
-                    detail = "the block counter is not incremented exactly once after the new block was filled"
+                    detail = "the block counter is not incremented exactly once per new block, after its value was used (or captured) for this state"
                 q2b = fld(SC + "QuantumToBlock")
                 b2q = fld(SC + "BlockToQuantum")
                 regs = set()
@@ -122,16 +166,16 @@ def body(chk, db, cfgname):
                         n = f.nodes[nid]
                         if n["k"] in ("bin", "call"):
                             k = ctx.key(nid, inline=False)
-                            if k[0] == "op" and k[1] == "=" and k[2][0] == "op" and k[2][1] == "[]" and k[2][2] == q2b and deconv(k[3]) == b:
+                            if k[0] == "op" and k[1] == "=" and k[2][0] == "op" and k[2][1] == "[]" and k[2][2] == q2b and res(deconv(k[3])) == b:
                                 regs.add("q2b")
-                            if k[0] == "mcall" and k[1].endswith("::insert") and k[2] == b2q and key_contains(deconv(k), lambda y: y == b):
+                            if k[0] == "mcall" and k[1].endswith("::insert") and k[2] == b2q and key_contains(res(deconv(k)), lambda y: y == b):
                                 regs.add("b2q")
                 if regs != {"q2b", "b2q"}:
                     good = False
                     detail = "the new block is not registered in both QuantumToBlock and BlockToQuantum"
         else:
             # existing block: number read from the find() result on the found edge
-            fa = at.get(f.cfg.pos1(seq[0]), frozenset())
+            fa = at.get(f.cfg.pos1(used_def[0] if used_def else seq[0]), frozenset())
             fk = [x for x in fa if x[0] == "!=" and key_contains(x, lambda y: y[0] == "mcall" and y[1] == "std::map::find" and y[2] == fld(SC + "QuantumToBlock"))]
             if not fk:
                 good = False
@@ -204,10 +248,66 @@ def body(chk, db, cfgname):
                         if bsel == deconv(blk) or (bsel[0] == "var" and deconv(gctx.key(gctx.decls[bsel[1]]["init"])) == deconv(blk)):
                             good = True
     site = SC + "getInnerState"
-    if good:
+    verdict = "ok" if good else None
+    if not good:
+        # other recognised forms, and what exactly is wrong when a recognised form deviates
+        SCn_ = fld(SC + "StatesContainer")
+
+        def block_of(ck):
+            """ck = StatesContainer[b] (possibly through a reference/local): returns b"""
+            ck = deconv(ck)
+            if ck[0] == "op" and ck[1] == "[]" and ck[2] == SCn_:
+                b = deconv(ck[3])
+                if b[0] == "var" and gctx.decls.get(b[1], {}).get("init") is not None:
+                    b = deconv(gctx.key(gctx.decls[b[1]]["init"]))
+                return b
+            return None
+        found = None
+        for j, n in g.walk(g.body):
+            if n["k"] == "return" and n.get("sub") is not None:
+                rk = deconv(gctx.key(n["sub"]))
+                # std::distance(C.begin(), std::find(C.begin(), C.end(), state))   /   it - C.begin()
+                fk = None
+                if rk[0] == "call" and rk[1] == "std::distance" and len(rk) == 4:
+                    fk, bk = rk[3], rk[2]
+                elif rk[0] == "op" and rk[1] == "-" and len(rk) == 4:
+                    fk, bk = rk[2], rk[3]
+                if fk is not None and fk[0] == "call" and fk[1] == "std::find" and len(fk) == 5 and bk[0] == "mcall" and bk[1].split("::")[-1] in ("begin", "cbegin"):
+                    C = bk[2]
+                    same = fk[2] == bk and fk[3][0] == "mcall" and fk[3][1].split("::")[-1] in ("end", "cend") and fk[3][2] == C
+                    found = (j, C, same, fk[4])
+        if found:
+            j, C, same, needle = found
+            b = block_of(C)
+            if b is None:
+                verdict, why = "bad", "the position is searched in %s, which is not a block of StatesContainer" % g.s(j)[:60]
+            elif b != deconv(blk):
+                verdict, why = "bad", "the state is searched in block %s instead of the block given by getBlockNumber(state)" % fact_str(("true", b))
+            elif not same or needle != st:
+                verdict, why = "bad", "std::find does not search the whole block for the requested state"
+            else:
+                verdict = "ok"
+        else:
+            # loop form with a deviation we can name: the comparison is against another block
+            for j, n in g.walk(g.body):
+                if n["k"] == "return" and n.get("sub") is not None:
+                    fa = thr.facts(g).get(g.cfg.pos1(j), frozenset())
+                    for x in fa:
+                        if x[0] == "==" and st in (x[1], x[2]):
+                            other = deconv(x[2] if x[1] == st else x[1])
+                            if other[0] == "op" and other[1] == "[]" and other[2][0] == "op" and other[2][2] == SCn_:
+                                b = block_of(other[2])
+                                rk = gctx.key(n["sub"], inline=False)
+                                if b != deconv(blk):
+                                    verdict, why = "bad", "the state is compared with the states of block %s instead of the block given by getBlockNumber(state)" % fact_str(("true", b))
+                                elif other[3] != rk:
+                                    verdict, why = "bad", "the returned value %s is not the position at which the state was found" % g.s(n["sub"])[:40]
+    if verdict == "ok":
         r2.ok(site, g.loc(), "returns n with StatesContainer[getBlockNumber(state)][n] == state", cfgname)
+    elif verdict == "bad":
+        r2.bad(site, g.loc(), "getInnerState does not return the position of the state inside the block given by getBlockNumber(state): " + why, cfgname)
     else:
-        r2.bad(site, g.loc(), "getInnerState does not return the position of the state inside the block given by getBlockNumber(state)", cfgname)
+        r2.unknown(site, g.loc(), "the search for the state inside its block is written in a form that is not analysed", cfgname)
     g = db.fn(SC + "getFockState", ptypes=[r"BlockNumber", r"long"])
     gctx = thr.ctx(g)
     b_, m_ = [("param", p["d"], p["n"]) for p in g.params]
